@@ -1,0 +1,24 @@
+//go:build verif
+
+package build
+
+import (
+	"strings"
+
+	"github.com/thought-machine/please/src/core"
+)
+
+// verifDepStates renders the states of a target's resolved dependencies at the moment its
+// build step starts, for the external trace checker.
+func verifDepStates(target *core.BuildTarget) string {
+	var sb strings.Builder
+	for i, dep := range target.Dependencies() {
+		if i > 0 {
+			sb.WriteByte(',')
+		}
+		sb.WriteString(dep.Label.String())
+		sb.WriteByte('=')
+		sb.WriteString(dep.State().String())
+	}
+	return sb.String()
+}
